@@ -21,6 +21,9 @@ import time
 STEP_TIMEOUT = 10          # a handshake with the witness takes well under a second; a step that hangs is an observation, not a reason to wait
 
 
+HANGS = {"n": 0}
+
+
 class StepTimeout(BaseException):
     pass
 
@@ -164,7 +167,7 @@ def main():
                 f.write(pre["final"])
         for step in case["steps"]:
             ob = {"ep": step["ep"]}
-            signal.alarm(STEP_TIMEOUT)
+            signal.alarm(STEP_TIMEOUT if HANGS["n"] < 3 else 3)      # once hangs have been seen, the rest get 3 s each
             try:
                 if step["ep"] == "loader":
                     try:
@@ -227,6 +230,7 @@ def main():
                     ob["error"] = "unknown step"
             except StepTimeout:
                 ob["hang"] = True
+                HANGS["n"] += 1
                 res["stragglers"] += settle()
                 ob["procs"] = collect(dirs)
             finally:
